@@ -206,7 +206,8 @@ _shrink_spent = [0.0]
 
 
 def shrink(workdir, header, case_line, prop, idx, visible=False, maxtests=250):
-    if _shrink_spent[0] >= SHRINK_BUDGET_S:
+    if _shrink_spent[0] >= SHRINK_BUDGET_S or os.environ.get("PV_NO_SHRINK"):
+        # PV_NO_SHRINK: the selftest only needs the verdict, not a minimal replay
         return case_line
     t_start = time.time()
     try:
